@@ -32,6 +32,7 @@ const (
 	outPanic
 	outPlanPanic // Plan() of the stage panics (planning runs in the parent's goroutine, before anything is submitted)
 	outHookPanic // the stage's operators succeed, its Complete() hook panics (lindb's shard scan / grouping stages collect tag values there)
+	outNextPanic // NextStages() of a pooled stage panics: its own plan succeeded, the panic comes while its completion plans what follows
 )
 
 // Gen: a stage tree. Op{K:"stage", T:index, A:parent (-1 root), B:outcome, C:async(1)/inline(0) | work<<1,
@@ -71,15 +72,17 @@ func (H) Gen(prop string, rng *rand.Rand, tier string) *core.Plan {
 			out = outErr
 		} else if r < failP+panicP {
 			out = outPanic
-			switch rng.Intn(4) {
+			switch rng.Intn(5) {
 			case 0:
 				out = outPlanPanic
 			case 1:
 				out = outHookPanic
+			case 2:
+				out = outNextPanic
 			}
 		}
 		async := 0
-		if rng.Intn(100) < asyncP {
+		if rng.Intn(100) < asyncP || out == outNextPanic {
 			async = 1
 		}
 		work := rng.Intn(4)
@@ -248,6 +251,13 @@ func (H) Run(c *core.RunCtx) {
 			}
 			return planOf(n, run)
 		}, func() []stage.Stage {
+			if n.outcome == outNextPanic {
+				anyFailedStarted = true
+				anyPanic = true
+				sim.Event("stage %d next-stages panic", n.idx)
+				sim.Fault("next-stages-panic")
+				panic(fmt.Sprintf("planning what follows stage %d panics", n.idx))
+			}
 			var ks []stage.Stage
 			for _, k := range n.kids {
 				ks = append(ks, build(k))
